@@ -25,4 +25,8 @@ def run(ctx):
     T.clause_tables(R, F, "commit_changes")
     T.clause_reorg_order(R, F)
     T.clause_reorg_height_last(R, F)
+    # after a reopen the rollback works from the persisted histories: loaded unconditionally, pruned only outside the window
+    import windowrules as W2
+    W2.clause_history_window(R, F)
+    T.clause_retrieve_cache(R, F)
     return R
